@@ -11,30 +11,38 @@
    correspondence only - cyclic_links_diverge shows why no general convergence theorem holds. *)
 From Coq Require Import ZArith List Bool Arith.
 From TV Require Import Common.Harness C20.ListSem C20.ListProofs C20.Model C20.Law C20.Steps C20.Proofs C20.Termination C20.SliceProofs C20.Star C20.StarProofs.
-From TV Require C20.Spread C20.TreeSpread.
+From TV Require C20.Spread C20.TreeSpread C20.GraphProtocol C20.GraphMut C20.Notes.
 Import ListNotations.
 Open Scope Z_scope.
 
 (* The whole law (all 8 clauses of Law.v) holds at every step of every accepted history. *)
 Theorem law_holds_on_two_object_protocol :
-  forall (allowed : mut -> Prop), (forall mu, allowed mu -> forall l, replay_ok l mu) ->
+  (* from fresh objects, any replaying set of mutators *)
+  (forall (allowed : mut -> Prop), (forall mu, allowed mu -> forall l, replay_ok l mu) ->
   forall (F : nat) (h : list op) (va vb : list val),
     typed va -> typed vb -> accepts allowed MFresh h ->
-    law_hist 0 [] [va; vb] (run (S (S F)) (init_state [va; vb]) h) = [].
+    law_hist 0 [] [va; vb] (run (S (S F)) (init_state [va; vb]) h) = []) /\
+  (* law_holds_from_every_mode: from every reachable mode (mutual / one-way / partner dead) *)
+  (forall (allowed : mut -> Prop), (forall mu, allowed mu -> forall l, replay_ok l mu) ->
+  forall (F : nat) (h : list op) (md : mode) (va vb : list val) nts i,
+    inv md va vb -> accepts allowed md h ->
+    law_hist i (edges_of md) (snap_of md va vb) (run (S (S F)) (st_of md va vb nts) h) = []) /\
+  (* law_holds_without_extended_slices: outright for every mutator except extended slices *)
+  (forall (F : nat) (h : list op) (va vb : list val),
+    typed va -> typed vb -> accepts (fun mu => replayable_mut mu = true) MFresh h ->
+    law_hist 0 [] [va; vb] (run (S (S F)) (init_state [va; vb]) h) = []).
 Proof.
-  intros allowed Hr F h va vb Ta Tb Ha.
+  split; [|split].
+  - intros allowed Hr F h va vb Ta Tb Ha.
   exact (protocol_law allowed Hr F h MFresh va vb [] 0 (conj Ta (conj Tb I)) Ha).
+  - exact protocol_law.
+  - intros F h va vb Ta Tb Ha.
+  exact (protocol_law (fun mu => replayable_mut mu = true) (fun mu H l => replayable_replay_ok l mu H)
+                      F h MFresh va vb [] 0 (conj Ta (conj Tb I)) Ha).
 Qed.
 Print Assumptions law_holds_on_two_object_protocol.
 
 (* ... from any reachable mode as well (mutual / one-way / partner dead) *)
-Theorem law_holds_from_every_mode :
-  forall (allowed : mut -> Prop), (forall mu, allowed mu -> forall l, replay_ok l mu) ->
-  forall (F : nat) (h : list op) (md : mode) (va vb : list val) nts i,
-    inv md va vb -> accepts allowed md h ->
-    law_hist i (edges_of md) (snap_of md va vb) (run (S (S F)) (st_of md va vb nts) h) = [].
-Proof. exact protocol_law. Qed.
-Print Assumptions law_holds_from_every_mode.
 
 (* the replay hypothesis holds for every mutator that does not take a slice key *)
 Theorem simple_mutators_replay :
@@ -49,43 +57,34 @@ Proof. exact replayable_replay_ok. Qed.
 Print Assumptions all_but_extended_slices_replay.
 
 (* the law on every accepted history whose mutators are not extended-slice operations, outright *)
-Theorem law_holds_without_extended_slices :
-  forall (F : nat) (h : list op) (va vb : list val),
-    typed va -> typed vb -> accepts (fun mu => replayable_mut mu = true) MFresh h ->
-    law_hist 0 [] [va; vb] (run (S (S F)) (init_state [va; vb]) h) = [].
-Proof.
-  intros F h va vb Ta Tb Ha.
-  exact (protocol_law (fun mu => replayable_mut mu = true) (fun mu H l => replayable_replay_ok l mu H)
-                      F h MFresh va vb [] 0 (conj Ta (conj Tb I)) Ha).
-Qed.
-Print Assumptions law_holds_without_extended_slices.
 
 (* Several partners: a pool of three objects, object 0 linked mutually to objects 1 and 2 on one
    trait (a star; relabelled, the chain 1 - 0 - 2): links created and removed one after the other,
    any history of assignments and of list mutations (all mutators except extended slices) on all
    twelve traits in between: the whole law at every step, recursion depth 3. *)
 Theorem law_holds_with_two_partners :
-  forall (F : nat) (h : list op) (va vb vc : list val),
+  (* the whole law *)
+  (forall (F : nat) (h : list op) (va vb vc : list val),
     typed va -> typed vb -> typed vc ->
     accepts3 (fun mu => replayable_mut mu = true) M3Fresh h ->
-    law_hist 0 [] [va; vb; vc] (run (S (S (S F))) (init_state [va; vb; vc]) h) = [].
-Proof.
-  intros F h va vb vc Ta Tb Tc Ha.
-  exact (star_protocol_law (fun mu => replayable_mut mu = true) (fun mu H => replayable_replay2 mu H)
-                           F h M3Fresh va vb vc [] 0 (conj Ta (conj Tb (conj Tc I))) Ha).
-Qed.
-Print Assumptions law_holds_with_two_partners.
-
-Theorem two_partners_converge :
-  forall (allowed : mut -> Prop), (forall mu, allowed mu -> replay2_ok mu) ->
+    law_hist 0 [] [va; vb; vc] (run (S (S (S F))) (init_state [va; vb; vc]) h) = []) /\
+  (* two_partners_converge *)
+  (forall (allowed : mut -> Prop), (forall mu, allowed mu -> replay2_ok mu) ->
   forall F n va vb vc nts o,
     inv3 (M3Star n) va vb vc -> trans3 allowed (M3Star n) o (M3Star n) ->
     let r := step (S (S (S F))) (st3 (M3Star n) va vb vc nts) o in
     sval (ob_vals (snd r)) (0%nat, n) = sval (ob_vals (snd r)) (1%nat, n) /\
     sval (ob_vals (snd r)) (0%nat, n) = sval (ob_vals (snd r)) (2%nat, n) /\
-    overflow (fst r) = false.
-Proof. exact star_converges. Qed.
-Print Assumptions two_partners_converge.
+    overflow (fst r) = false).
+Proof.
+  split.
+  - intros F h va vb vc Ta Tb Tc Ha.
+  exact (star_protocol_law (fun mu => replayable_mut mu = true) (fun mu H => replayable_replay2 mu H)
+                           F h M3Fresh va vb vc [] 0 (conj Ta (conj Tb (conj Tc I))) Ha).
+  - exact star_converges.
+Qed.
+Print Assumptions law_holds_with_two_partners.
+
 
 (* ASSIGNMENTS converge on EVERY link graph: arbitrary pool, arbitrary tables (stars, chains, trees,
    cycles, aliases, one-way and mutual links, scalar and list traits).  If the linked traits agreed
@@ -119,6 +118,84 @@ Theorem assignment_histories_converge_on_mutual_graphs :
 Proof. exact Spread.assignment_histories_converge. Qed.
 Print Assumptions assignment_histories_converge_on_mutual_graphs.
 
+(* PROTOCOL ON GENERAL GRAPHS, FROM FRESH OBJECTS: every history of sync_trait(mutual) calls (between
+   distinct traits of one kind: same name or alias, several links per trait, any resulting graph -
+   stars, chains, cycles), of sync_trait(mutual, remove=True) calls (any two traits, linked or not), of
+   assignments, of PARTNER DEATHS (any object garbage-collected at any time) and of IN-PLACE LIST MUTATIONS
+   (every mutator except extended slices) issued while the link graph is a tree, on any pool of well-typed
+   fresh objects, leaves every still-linked pair equal, the tables symmetric, no lock behind and no
+   RecursionError (fuel 4 per operation).  [run_ok5] asks each operation, when it runs, to name traits of
+   live objects that accept the value / are of one kind; the graph may be cyclic between mutations. *)
+Theorem graph_histories_converge_from_fresh_objects :
+  forall fuel vs ops,
+  GraphProtocol.typed_pool vs -> (4 * length ops < fuel)%nat ->
+  GraphMut.run_ok5 fuel (init_state vs) ops ->
+  let st' := Spread.final fuel (init_state vs) ops in
+  Spread.consistent st' /\ Spread.symmetric st' /\ Spread.no_locks st' /\ overflow st' = false.
+Proof. exact GraphMut.fresh_graph_histories5. Qed.
+Print Assumptions graph_histories_converge_from_fresh_objects.
+
+(* NOTIFICATIONS, ON EVERY GRAPH: during one setattr with all its propagation - any pool, any link graph
+   whose links end at existing traits, cycles and aliases included - the change handlers of a trait fire
+   exactly once if its value changed and not at all otherwise ([Notes.nc st (o, n)] is the observed
+   count: count_notes st o n = Z.of_nat (nc st (o, n)) by definition). *)
+Theorem assignment_notifies_each_changed_trait_once :
+  forall v f st o n,
+  Notes.ranged st -> overflow st = false -> lockedb st o n = false -> (Phi st < f)%nat ->
+  Spread.in_range st (o, n) ->
+  let st' := fst (assign f st o n v) in
+  (forall x, Spread.val st' x = Spread.val st x \/ Spread.val st' x = v) /\
+  (forall y, (Spread.val st y <> v -> Spread.val st' y = v -> Notes.nc st' y = S (Notes.nc st y)) /\
+             (Spread.val st y = v \/ Spread.val st' y <> v -> Notes.nc st' y = Notes.nc st y)).
+Proof. exact Notes.assign_noted. Qed.
+Print Assumptions assignment_notifies_each_changed_trait_once.
+
+(* ... so in every state the protocol reaches, an assignment that changes the value notifies every trait of
+   the link component exactly once and no other trait; one that does not change it notifies nobody. *)
+Theorem assignment_notifies_exactly_the_component :
+  forall fuel st o n v,
+  GraphProtocol.ginv st -> Spread.in_range st (o, n) -> kind_ok n v = true -> (GraphProtocol.A st < fuel)%nat ->
+  let st' := fst (step fuel st (Assign o n v)) in
+  (Spread.val st (o, n) = v -> forall y, Notes.nc st' y = 0%nat) /\
+  (Spread.val st (o, n) <> v ->
+     forall y, (Spread.reach st (o, n) y -> Notes.nc st' y = 1%nat) /\
+               (~ Spread.reach st (o, n) y -> Notes.nc st' y = 0%nat)).
+Proof. exact GraphMut.assign_notifies_exactly_the_component. Qed.
+Print Assumptions assignment_notifies_exactly_the_component.
+
+(* A DEAD PARTNER DROPS OUT OF EVERY GRAPH: when object d is collected, exactly the links from and to d
+   leave the tables, every other trait keeps its value, and the protocol invariant (symmetry, agreement
+   along the remaining links, no locks) survives - so what was joined only through d no longer follows. *)
+Theorem dead_partner_leaves_every_graph :
+  forall fuel st d,
+  GraphProtocol.ginv st -> GraphProtocol.keys_nodup st ->
+  let st' := fst (step fuel st (Collect d)) in
+  GraphProtocol.ginv st' /\ GraphProtocol.keys_nodup st' /\ (GraphProtocol.A st' <= GraphProtocol.A st)%nat /\
+  (forall a b, Spread.edge st' a b <-> (Spread.edge st a b /\ fst a <> d /\ fst b <> d)) /\
+  (forall x, Spread.in_range st' x <-> (Spread.in_range st x /\ fst x <> d)) /\
+  (forall x, fst x <> d -> Spread.val st' x = Spread.val st x).
+Proof. exact GraphProtocol.collect_step_inv. Qed.
+Print Assumptions dead_partner_leaves_every_graph.
+
+(* STOP WHEN UNSYNCHRONISED, ON EVERY GRAPH: remove=True takes exactly the two directions of that link out
+   of the tables (first conjunct); a later assignment to one end then reaches exactly what is still
+   connected to it WITHOUT that link, and every other trait - the former partner included, unless another
+   path still joins the two - keeps the value it had. *)
+Theorem removed_link_inert_on_every_graph :
+  forall fuel st o n p m v,
+  GraphProtocol.ginv st -> GraphProtocol.keys_nodup st ->
+  Spread.in_range st (o, n) -> Spread.in_range st (p, m) ->
+  kind_ok n v = true -> (GraphProtocol.A st < fuel)%nat ->
+  let st1 := fst (step fuel st (Unsync o n p m true)) in
+  let st2 := fst (step fuel st1 (Assign o n v)) in
+  (forall a b, Spread.edge st1 a b <->
+     (Spread.edge st a b /\ ~ (a = (o, n) /\ b = (p, m)) /\ ~ (a = (p, m) /\ b = (o, n)))) /\
+  GraphProtocol.ginv st2 /\
+  (forall y, Spread.reach st1 (o, n) y -> Spread.val st2 y = v) /\
+  (forall y, ~ Spread.reach st1 (o, n) y -> Spread.val st2 y = Spread.val st y).
+Proof. exact GraphProtocol.removed_link_inert_on_graphs. Qed.
+Print Assumptions removed_link_inert_on_every_graph.
+
 (* IN-PLACE LIST MUTATIONS converge on every TREE-shaped link graph (any number of objects, any
    branching and depth, aliases; mutual trees, and also one-way "out-trees": [otree] only asks that the
    parts explored through two different partners of a trait do not meet): one mutation whose event
@@ -136,6 +213,17 @@ Theorem list_mutation_converges_on_every_tree :
               (forall y, Spread.val st' y = Spread.val st y \/ Spread.reach st (o, n) y).
 Proof. exact TreeSpread.mut_step_converges. Qed.
 Print Assumptions list_mutation_converges_on_every_tree.
+
+(* ... and its <name>_items handlers fire at most once per trait, only for traits reachable from the mutated one *)
+Theorem list_mutation_notifies_each_trait_at_most_once :
+  forall f st o n mu L,
+  TreeSpread.otree st -> Spread.no_locks st -> overflow st = false -> (Phi st < f)%nat ->
+  Spread.in_range st (o, n) -> is_list_name n = true -> replayable_mut mu = true ->
+  (forall y, Spread.reach st (o, n) y -> Spread.val st y = VL L) ->
+  let st' := fst (step f st (Mut o n mu)) in
+  forall y, Notes.nc st' y = 0%nat \/ (Spread.reach st (o, n) y /\ Notes.nc st' y = 1%nat).
+Proof. exact TreeSpread.mut_step_notes. Qed.
+Print Assumptions list_mutation_notifies_each_trait_at_most_once.
 
 (* ... hence every history of assignments and list mutations on a mutual tree keeps all linked traits equal *)
 Theorem mutual_trees_are_out_trees : forall st, TreeSpread.tree st -> TreeSpread.otree st.
@@ -166,12 +254,30 @@ Proof. exact mutual_converges_step. Qed.
 Print Assumptions mutual_converges.
 
 (* termination: recursion depth 2 (fuel S (S F) for every F, in particular F = 0) is never exceeded *)
-Theorem propagation_depth_le_2 :
-  forall (allowed : mut -> Prop), (forall mu, allowed mu -> forall l, replay_ok l mu) ->
+(* three corollaries in one theorem: each Print Assumptions walks the whole symbolic-execution development *)
+Theorem two_object_protocol_corollaries :
+  (* propagation_depth_le_2 *)
+  (forall (allowed : mut -> Prop), (forall mu, allowed mu -> forall l, replay_ok l mu) ->
   forall F h md va vb nts, inv md va vb -> accepts allowed md h ->
-    Forall (fun p => ob_out (snd p) <> Raised RecursionError) (run (S (S F)) (st_of md va vb nts) h).
-Proof. exact protocol_no_overflow. Qed.
-Print Assumptions propagation_depth_le_2.
+    Forall (fun p => ob_out (snd p) <> Raised RecursionError) (run (S (S F)) (st_of md va vb nts) h)) /\
+  (* at_most_one_notification_per_real_change *)
+  (forall (allowed : mut -> Prop), (forall mu, allowed mu -> forall l, replay_ok l mu) ->
+  forall F h md va vb nts, inv md va vb -> accepts allowed md h ->
+    Forall (fun p => clause7 (snd p) = true /\ ob_logged (snd p) = 0)
+           (run (S (S F)) (st_of md va vb nts) h)) /\
+  (* dead_partner_inert *)
+  (forall (allowed : mut -> Prop), (forall mu, allowed mu -> forall l, replay_ok l mu) ->
+  forall F h md va vb nts, inv md va vb -> not_dead md -> accepts allowed (dead_of md) h ->
+    law_hist 0 (edges_of md) (snap_of md va vb) (run (S (S F)) (st_of md va vb nts) (Collect 1%nat :: h)) = []).
+Proof.
+  split; [|split].
+  - exact protocol_no_overflow.
+  - exact protocol_one_notification.
+  - intros allowed Hr F h md va vb nts Hi Hd Ha.
+  apply (protocol_law allowed Hr); [exact Hi|].
+  eapply A_cons; [apply T_collect; exact Hd|exact Ha].
+Qed.
+Print Assumptions two_object_protocol_corollaries.
 
 (* ... and for ARBITRARY pools, tables, link graphs and values: a call of setattr / of the item-event
    propagation on a trait that is not locked never exceeds recursion depth Phi + 1, where Phi <= the
@@ -188,13 +294,6 @@ Proof.
 Qed.
 Print Assumptions propagation_depth_bounded.
 
-Theorem at_most_one_notification_per_real_change :
-  forall (allowed : mut -> Prop), (forall mu, allowed mu -> forall l, replay_ok l mu) ->
-  forall F h md va vb nts, inv md va vb -> accepts allowed md h ->
-    Forall (fun p => clause7 (snd p) = true /\ ob_logged (snd p) = 0)
-           (run (S (S F)) (st_of md va vb nts) h).
-Proof. exact protocol_one_notification. Qed.
-Print Assumptions at_most_one_notification_per_real_change.
 
 Theorem one_way_is_one_way :
   forall F n m va vb nts,
@@ -228,16 +327,6 @@ Print Assumptions removed_link_inert.
 
 (* after the partner died every operation on the survivor is lawful: plain result, nothing raised
    or logged, one notification (clauses 4-8), although the sync handlers are still attached *)
-Theorem dead_partner_inert :
-  forall (allowed : mut -> Prop), (forall mu, allowed mu -> forall l, replay_ok l mu) ->
-  forall F h md va vb nts, inv md va vb -> not_dead md -> accepts allowed (dead_of md) h ->
-    law_hist 0 (edges_of md) (snap_of md va vb) (run (S (S F)) (st_of md va vb nts) (Collect 1%nat :: h)) = [].
-Proof.
-  intros allowed Hr F h md va vb nts Hi Hd Ha.
-  apply (protocol_law allowed Hr); [exact Hi|].
-  eapply A_cons; [apply T_collect; exact Hd|exact Ha].
-Qed.
-Print Assumptions dead_partner_inert.
 
 (* New finding: with three mutually linked lists (a trait reachable along two link paths) one
    append is delivered twice - the model, which follows the code, violates clauses 1, 3 and 7. *)
@@ -269,6 +358,52 @@ Proof.
   apply Spread.assignment_histories_converge_checked; vm_compute; reflexivity.
 Qed.
 
+(* Non-vacuity: the graph of [graph_ops] (cycle, alias, tail) interleaved with assignments, removals, a death
+   and list mutations, from fresh objects; the hypotheses are decided by sound checkers.  After the link 0-1 is
+   removed the cycle still joins them through 2 (8 everywhere); after 1-2 goes as well, object 1 keeps 8 while
+   the rest follows 9; when object 2 dies, object 0 is on its own (4) and 3-4 still follow each other (6); the
+   list chain 0.l - 4.m - 3.l built afterwards carries two in-place mutations.  A mutation issued while the
+   graph still has its cycle is not admitted (last conjunct), nor is any operation on the dead object. *)
+Example fresh_history_converges :
+  let vs := [tv 5 0 [] []; tv 1 1 [] []; tv 2 2 [] []; tv 3 3 [] []; tv 4 4 [] []] in
+  let h := [Sync 0 0 1 0 true; Assign 1 0 (VS 7); Sync 1 0 2 1 true; Sync 2 1 0 0 true; Sync 2 1 3 0 true;
+            Sync 3 0 4 0 true; Sync 0 2 4 3 true; Assign 4 3 (VL [1; 2]%Z);
+            Unsync 0 0 1 0 true; Assign 0 0 (VS 8); Unsync 2 1 1 0 true; Unsync 3 1 4 1 true;
+            Assign 4 0 (VS 9); Unsync 4 3 0 2 true; Assign 0 2 (VL [3]%Z);
+            Collect 2; Assign 0 0 (VS 4); Assign 3 0 (VS 6);
+            Sync 0 2 4 3 true; Sync 4 3 3 2 true; Mut 3 2 (MAppend 7); Mut 0 2 (MInsert 0 5)]%nat in
+  Spread.consistent (Spread.final 100 (init_state vs) h)
+  /\ map (fun x => Spread.val (Spread.final 100 (init_state vs) h) x) [(0, 0); (1, 0); (3, 0); (4, 0); (0, 2); (4, 3); (3, 2)]%nat
+     = [VS 4; VS 8; VS 6; VS 6; VL [5; 3; 7]%Z; VL [5; 3; 7]%Z; VL [5; 3; 7]%Z]
+  /\ GraphMut.run_ok5b 100 (init_state vs) (h ++ [Assign 2%nat 1%nat (VS 1)]) = false
+  /\ GraphMut.run_ok5b 100 (init_state vs) (firstn 5 h ++ [Mut 0%nat 2%nat (MAppend 1)]) = false.
+Proof.
+  split; [|vm_compute; repeat split; reflexivity].
+  apply graph_histories_converge_from_fresh_objects.
+  - apply GraphProtocol.typed_poolb_sound. vm_compute. reflexivity.
+  - vm_compute. repeat constructor.
+  - apply GraphMut.run_ok5b_sound. vm_compute. reflexivity.
+Qed.
+
+(* Non-vacuity of the notification theorems: a three-object cycle with an alias reached by the protocol from
+   fresh objects; an assignment notifies the three linked traits once each, the unlinked one not, and assigning
+   the same value again notifies nobody. *)
+Example notifications_nontrivial :
+  let vs := [tv 5 0 [] []; tv 1 1 [] []; tv 2 2 [] []; tv 3 3 [] []] in
+  let ops := [Sync 0 0 1 0 true; Sync 1 0 2 1 true; Sync 2 1 0 0 true]%nat in
+  let st := Spread.final 41 (init_state vs) ops in
+  let st1 := fst (step 41 st (Assign 0%nat 0%nat (VS 9))) in
+  GraphProtocol.ginv st
+  /\ map (Notes.nc st1) [(0, 0); (1, 0); (2, 1); (3, 0)]%nat = [1; 1; 1; 0]%nat
+  /\ map (Notes.nc (fst (step 41 st1 (Assign 1%nat 0%nat (VS 9))))) [(0, 0); (1, 0); (2, 1); (3, 0)]%nat = [0; 0; 0; 0]%nat.
+Proof.
+  intros vs ops st st1. split; [|vm_compute; split; reflexivity].
+  destruct (GraphProtocol.ginv_fresh vs) as [I0 A0]; [apply GraphProtocol.typed_poolb_sound; vm_compute; reflexivity|].
+  apply (GraphMut.graph_histories5 41 ops (init_state vs) I0 (GraphProtocol.keys_fresh vs)).
+  - rewrite A0. vm_compute. repeat constructor.
+  - apply GraphMut.run_ok5b_sound. vm_compute. reflexivity.
+Qed.
+
 (* Non-vacuity of the tree theorems: five objects, the list traits linked as the tree
    1 - 0 - 2 - {3, 4} (the link 0 - 2 with an alias), built by sync_trait itself; [treeb] decides the
    hypotheses (symmetry, acyclicity by a checked closure, items handlers attached, ranges). *)
@@ -287,6 +422,11 @@ Proof.
   split; [|vm_compute; repeat split; reflexivity].
   apply TreeSpread.tree_histories_converge_checked; vm_compute; reflexivity.
 Qed.
+
+Example tree_mutation_notifies_once :
+  map (Notes.nc (fst (step 40 tree_st (Mut 4%nat 2%nat (MAppend 7))))) [(0, 2); (1, 2); (2, 3); (3, 2); (4, 2); (0, 0); (2, 2)]%nat
+  = [1; 1; 1; 1; 1; 0; 0]%nat.
+Proof. vm_compute. reflexivity. Qed.
 
 (* ... and a ONE-WAY fan-out 0 -> 1, 0 -> 2 (alias), 2 -> 3 on list traits that agree: not a mutual tree, but an
    out-tree ([otreeb], sound); a mutation at the root reaches all four, a mutation at 2 only 2 and 3. *)
